@@ -21,7 +21,7 @@ LD = np.longdouble
 TWO_PI = 2 * np.arctan2(LD(0), LD(-1))
 
 GETS = [1, 2, 3, 5]
-SET_T = [0.25, 7.0, 1.0 / 3.0]          # 1/3 s is off every sample grid used here
+SET_T = [0.25, 7.0, 1.0 / 3.0, 0.0]     # 1/3 s is off every sample grid used here; the instant 0 is an instant like any other (C10-28)
 ADD_T = [0.0, 0.0107421875]      # 11/1024 s: exact in single and double precision, not a whole number of samples at any rate used here
 UPD = [4]
 
@@ -495,7 +495,7 @@ def case_antenna(cfg):
             tw.append(np.asarray(s.get_samples(depth * 5 + 8)) if n_noise(pc) else None)
         return tw
     twins = build_twins()
-    ops = [('get', 2), ('get', 3), ('set', 7.0), ('add', 0.5), ('reset',), ('updx', 4)]
+    ops = [('get', 2), ('get', 3), ('set', 7.0), ('set', 0), ('add', 0.5), ('reset',), ('updx', 4)]
     if npol == 2 and n_noise(pcfg[0]) and n_noise(pcfg[1]) and pcfg[0]['sources'] == pcfg[1]['sources'] and np.array_equal(twins[0], twins[1]):
         V('same_noise_xy', 'x and y polarisation streams draw identical noise', 'Antenna')
     frontier = [[]]
